@@ -35,7 +35,7 @@ EvInit == Rec.e = "init" /\ g' = Rec /\ rets' = {} /\ UNCHANGED viol
 EvRet ==
   /\ Rec.e = "ret"
   /\ rets' = rets \cup {Rec}
-  /\ V({<<"OpsSucceed", Rec.res = "ok" \/ (g.faildel /\ Rec.res = "indexdelete")>>})
+  /\ V({<<"OpsSucceed", Rec.res = "ok" \/ (g.faildel /\ Rec.res = "indexdelete") \/ (g.failidx # "" /\ Rec.res = "err")>>})
   /\ UNCHANGED g
 EvHang == Rec.e = "hang" /\ V({<<"NoHang", FALSE>>}) /\ UNCHANGED <<g, rets>>
 
@@ -44,6 +44,10 @@ EvHang == Rec.e = "hang" /\ V({<<"NoHang", FALSE>>}) /\ UNCHANGED <<g, rets>>
 Pushed == {r.r : r \in {x \in rets : x.kind = "push" /\ x.res \in {"ok", "indexdelete"}}}
 Deleted == {r.r : r \in {x \in rets : x.kind = "delete" /\ x.res = "ok"}}
 Unlisted == {r.r : r \in {x \in rets : x.kind = "delete" /\ x.res = "indexdelete"}}
+\* an injected failure of the index fetch or push makes the operations of that batch fail: a failed Push has stored its
+\* manifest but not listed it, a failed Delete has done nothing
+PushedErr == {r.r : r \in {x \in rets : x.kind = "push" /\ x.res = "err"}}
+DeletedErr == {r.r : r \in {x \in rets : x.kind = "delete" /\ x.res = "err"}}
 ExpectedLive == (Rng(g.pre) \cup Pushed) \ Deleted
 
 \* the index of subject s was rewritten by this client in the round (any rewrite drops duplicates and empty entries)
@@ -57,17 +61,18 @@ EvQuiesce ==
          LiveOf(s) == {r \in Rng(Rec.live) : RefRec(r)[2] = s}
          delErrs == Cardinality({x \in rets : x.res = "indexdelete"})
      IN V({<<"AllReturned", Cardinality(rets) = g.nops>>,
-           <<"LiveAsOperated", Rng(Rec.live) = ExpectedLive>>,
+           <<"LiveAsOperated", ExpectedLive \subseteq Rng(Rec.live) /\ Rng(Rec.live) \subseteq ExpectedLive \cup PushedErr>>,
            \* a referrer whose Delete stopped at the index-delete error is still live: it may be listed (the update was the
            \* failed deletion of the index itself) or not (a new index without it was pushed first)
            <<"IndexExact", \A s \in 0..(g.subjects - 1) :
-                 /\ (LiveOf(s) \ Unlisted) \subseteq Ids(s) \ {0}
+                 /\ (LiveOf(s) \ (Unlisted \cup PushedErr)) \subseteq Ids(s) \ {0}
                  /\ Ids(s) \ {0} \subseteq LiveOf(s)
                  /\ Cleaned(s) => (0 \notin Ids(s) /\ Cardinality(Pos(s)) = Cardinality(Ids(s)))        \* each once, no empty entry
                  /\ \A j \in Pos(s) : listed[j][2] \in RefIds => (listed[j][3] = RefRec(listed[j][2])[3] /\ listed[j][4] = RefRec(listed[j][2])[4])>>,
            <<"NoDangling", (~g.skipgc /\ ~Rec.failfired) => (Rec.indexes = Rec.tagged /\ Rec.indexes <= g.subjects)>>,
-           <<"DeleteErrorAfterEffect", Rec.failfired <=> delErrs >= 1>>,
-           <<"FailureLeavesOneExtraIndex", Rec.failfired => Rec.indexes <= Rec.tagged + 1>>})
+           <<"DeleteErrorAfterEffect", g.failidx = "" => (Rec.failfired <=> delErrs >= 1)>>,
+           <<"FailureReported", (g.failidx # "" /\ Rec.failfired) => \E x \in rets : x.res = "err">>,
+           <<"FailureLeavesOneExtraIndex", (Rec.failfired /\ ~g.skipgc) => Rec.indexes <= Rec.tagged + 1>>})
   /\ UNCHANGED <<g, rets>>
 
 Step ==
